@@ -87,7 +87,12 @@ def run(chk):
                     if a.area is None or abs(a.area - b.area) > tol.area * 10:
                         ok = False
             if not ok and not tol.ill:
-                chk.violation('impl-vs-impl', 'route through with_faces() differs from the direct build beyond rounding %s' % where, rp, key='viaf')
+                # which faces differ?  wall faces of generators lying on that wall are the known defect
+                only_wall = impl_structure(vf) == impl_structure(d) and all(
+                    (a.area is not None and abs(a.area - b.area) <= tol.area * 10) or (a.right is None and gen_on_wall(inp, a.left))
+                    for a, b in zip(vf['faces'], d['faces'])) and all(
+                    abs(a.volume - b.volume) <= tol.vol for a, b in zip(vf['cells'], d['cells']))
+                chk.violation('impl-vs-impl', 'route through with_faces() differs from the direct build beyond rounding %s' % where, rp, key='viaf' + (' gen-on-wall' if only_wall else ''))
         # 6. model headers
         m = model.get(r.id)
         if m and m[0] == 'D0':
